@@ -59,6 +59,10 @@ inline std::string item_string(uint64_t raw) {
   uint64_t r = raw;
   while (s.size() < len) { r = mix64(r); s.push_back(static_cast<char>('a' + (r % 26))); }
   if (s.size() > len && len >= 20) s.resize(len);  // keep the decimal prefix intact (distinctness) for short ones
+  // strings are byte strings: one in eight starts with a NUL byte, one in eight carries a NUL and a 0xFF byte inside (still distinct per raw:
+  // the decimal prefix is kept)
+  if ((raw & 7) == 3) s.insert(s.begin(), '\0');
+  else if ((raw & 7) == 5) s.insert(s.size() / 2, std::string("\0\xff", 2));
   return s;
 }
 inline std::string item_bytes(uint64_t raw) {
